@@ -691,10 +691,10 @@ pub mod state {
     //@ fn src/writers/file_log_writer/state.rs fn get_creation_timestamp
     //@   ret r
     //@   props C09
-    //@   closure 1 sig |_e: FlexiLoggerError| -> (r: Result<DateTime<Local>, FlexiLoggerError>)
-    //@   closure 1 ens r == fs_modified_ts(path_view(path))
-    //@   closure 2 sig |_e: FlexiLoggerError| -> (r: DateTime<Local>)
-    //@   closure 2 ens r == clock_now()
+    //@   closure ~try_get_modification_timestamp ## sig |_e: FlexiLoggerError| -> (r: Result<DateTime<Local>, FlexiLoggerError>)
+    //@   closure ~try_get_modification_timestamp ## ens r == fs_modified_ts(path_view(path))
+    //@   closure ~get_current_timestamp ## sig |_e: FlexiLoggerError| -> (r: DateTime<Local>)
+    //@   closure ~get_current_timestamp ## ens r == clock_now()
     //@   ens[get_creation_timestamp.post] r == creation_ts(path_view(path))
     //@ sig src/writers/file_log_writer/state.rs fn try_get_creation_timestamp
     //@   ret r
@@ -759,12 +759,12 @@ pub mod state {
         //@   props C01,C06,C19,C14
         //@   req o_index_for_rcurrent is Some ==> o_index_for_rcurrent->Some_0 < u32::MAX
         //@   req o_index_for_rcurrent is None && highest_index_spec(&config.file_spec) is Some ==> highest_index_spec(&config.file_spec)->Some_0 < u32::MAX - 1
-        //@   closure 1 sig || -> (r: Option<u32>)
-        //@   closure 1 req highest_index_spec(&config.file_spec) is Some ==> highest_index_spec(&config.file_spec)->Some_0 < u32::MAX
-        //@   closure 1 ens r == match highest_index_spec(&config.file_spec) { Some(h) => Some((h + 1) as u32), None => None }
-        //@   closure 2 sig |idx: u32| -> (r: u32)
-        //@   closure 2 req idx < u32::MAX
-        //@   closure 2 ens r == idx + 1
+        //@   closure ~get_highest_index ## sig || -> (r: Option<u32>)
+        //@   closure ~get_highest_index ## req highest_index_spec(&config.file_spec) is Some ==> highest_index_spec(&config.file_spec)->Some_0 < u32::MAX
+        //@   closure ~get_highest_index ## ens r == match highest_index_spec(&config.file_spec) { Some(h) => Some((h + 1) as u32), None => None }
+        //@   closure ~idx + 1 ## sig |idx: u32| -> (r: u32)
+        //@   closure ~idx + 1 ## req idx < u32::MAX
+        //@   closure ~idx + 1 ## ens r == idx + 1
         //@   ens[index_for_rcurrent.post.oracle] r == index_for_rcurrent_spec(config, o_index_for_rcurrent, rotate_rcurrent)
         //@   canary
     }
